@@ -1504,7 +1504,38 @@ func exhaustRule(w *World, r *Report, dfi *FuncInfo) {
 		if len(children) == 0 {
 			return true
 		}
-		constOf := func(e ast.Expr) (int64, bool) { return constIntOf(info, e) }
+		constOf := func(e ast.Expr) (int64, bool) {
+			if c, ok := constIntOf(info, e); ok {
+				return c, true
+			}
+			// a helper of the module that returns a constant on some path (`minRecordLen(x)`): the largest one
+			if call, ok := unparen(e).(*ast.CallExpr); ok {
+				var fn *types.Func
+				switch f := unparen(call.Fun).(type) {
+				case *ast.Ident:
+					fn, _ = info.Uses[f].(*types.Func)
+				case *ast.SelectorExpr:
+					fn, _ = info.Uses[f.Sel].(*types.Func)
+				}
+				if fn != nil {
+					if hfi := w.FuncOf(fn); hfi != nil && hfi.Decl != nil && hfi.Decl.Body != nil {
+						best, found := int64(0), false
+						ast.Inspect(hfi.Decl.Body, func(m ast.Node) bool {
+							if rs, ok := m.(*ast.ReturnStmt); ok && len(rs.Results) == 1 {
+								if c, ok := constIntOf(hfi.Pkg.TypesInfo, rs.Results[0]); ok && (!found || c > best) {
+									best, found = c, true
+								}
+							}
+							return true
+						})
+						if found {
+							return best, true
+						}
+					}
+				}
+			}
+			return 0, false
+		}
 		// the slack one comparison leaves: how many bytes can remain when it turns false
 		slackOf := func(be *ast.BinaryExpr) (int64, bool) {
 			var small, big ast.Expr
